@@ -4,6 +4,13 @@ Model of the page-tree layer of the PDF reader:
                   Page.getBox / Resources / Rotate (own value, else inherited)
   reader/reader.go extractTextWithFragments (content streams joined with a
                   white-space separator)
+Resource bounds of the code (C02 repairs), modelled with the same constants and comparisons:
+  `maxPageTreeDepth = 10000` (86b42aa): `traversePageNode` starts with
+      `if t.depth >= maxPageTreeDepth { return error }; t.depth++` — `traverse` below;
+  `maxPageContentBytes = 64 << 20` (36a165b): the decoding loop of `extractTextWithFragments`
+      refuses `len(allData)+len(data) > maxPageContentBytes` before it appends — `joinLoop`.
+`flatten` and `joinContents` stay as the unbounded specification functions; Props/C01.lean
+proves that the bounded functions agree with them within the bounds and refuse beyond.
 Core Lean only.
 -/
 namespace Tabula.PdfDoc
@@ -64,6 +71,61 @@ def leafPathsList : List (PTreeOf R) → List (List (AttrsOf R))
   | t :: ts => leafPaths t ++ leafPathsList ts
 end
 
+/-- `maxPageTreeDepth` of pages/pages.go: the deepest page tree that is traversed -/
+def maxPageTreeDepth : Nat := 10000
+
+mutual
+/-- the number of levels of a page tree (a leaf, or a node without kids, is one level) -/
+def height : PTreeOf R → Nat
+  | .leaf _ => 1
+  | .node _ kids => heightList kids + 1
+def heightList : List (PTreeOf R) → Nat
+  | [] => 0
+  | t :: ts => max (height t) (heightList ts)
+end
+
+mutual
+/-- `traversePageNode` with its depth counter: `dep` is `t.depth` when the call is entered
+(0 for the root). The check `t.depth >= maxPageTreeDepth` comes first, before the node's
+`/Type` is looked at, so a `/Page` leaf at level 10000 is refused too. The first error ends
+the whole walk (`none`; `loadPages` then drops the pages collected so far). -/
+def traverse : Nat → PTreeOf R → AttrsOf R → Option (List (AttrsOf R))
+  | dep, .leaf a, inh => if dep ≥ maxPageTreeDepth then none else some [a.over inh]
+  | dep, .node a kids, inh =>
+    if dep ≥ maxPageTreeDepth then none else traverseList (dep + 1) kids (a.over inh)
+def traverseList : Nat → List (PTreeOf R) → AttrsOf R → Option (List (AttrsOf R))
+  | _, [], _ => some []
+  | dep, t :: ts, inh =>
+    match traverse dep t inh with
+    | none => none
+    | some xs =>
+      match traverseList dep ts inh with
+      | none => none
+      | some ys => some (xs ++ ys)
+end
+
+mutual
+/-- `traverse` instrumented: the second component is the largest value of `t.depth` with which
+a call of `traversePageNode` was entered (the deepest recursion of the walk) -/
+def traverseT : Nat → PTreeOf R → AttrsOf R → Option (List (AttrsOf R)) × Nat
+  | dep, .leaf a, inh => (if dep ≥ maxPageTreeDepth then none else some [a.over inh], dep)
+  | dep, .node a kids, inh =>
+    if dep ≥ maxPageTreeDepth then (none, dep)
+    else
+      let r := traverseListT (dep + 1) kids (a.over inh)
+      (r.1, max dep r.2)
+/-- the kids loop; the second component is 0 when no kid was entered -/
+def traverseListT : Nat → List (PTreeOf R) → AttrsOf R → Option (List (AttrsOf R)) × Nat
+  | _, [], _ => (some [], 0)
+  | dep, t :: ts, inh =>
+    match traverseT dep t inh with
+    | (none, m) => (none, m)
+    | (some xs, m) =>
+      match traverseListT dep ts inh with
+      | (none, m') => (none, max m m')
+      | (some ys, m') => (some (xs ++ ys), max m m')
+end
+
 /-- nearest definer along a root-to-leaf path, key by key: later (deeper) entries win -/
 def resolvePath (inh : AttrsOf R) : List (AttrsOf R) → AttrsOf R
   | [] => inh
@@ -83,8 +145,40 @@ def wordsAux : List Nat → List Nat → List (List Nat)
 
 def words (s : List Nat) : List (List Nat) := wordsAux s []
 
-/-- `extractTextWithFragments`: every non-empty decoded content stream followed by a newline -/
+/-- `extractTextWithFragments` without its size limit: every non-empty decoded content stream
+followed by a newline (the specification of the join) -/
 def joinContents (parts : List (List Nat)) : List Nat :=
   parts.flatMap fun p => if p.isEmpty then [] else p ++ [10]
+
+/-- `maxPageContentBytes` of reader/reader.go: `64 << 20` -/
+def maxPageContentBytes : Nat := 67108864
+
+/-- what one decoded stream adds to `allData`: itself and a line feed, nothing when empty -/
+def joinPiece (p : List Nat) : List Nat := if p.isEmpty then [] else p ++ [10]
+
+/-- the decoding loop of `extractTextWithFragments` as the code has it since 36a165b: `n` is
+`len(allData)` when the part is reached (separators included); a part with
+`len(allData)+len(data) > maxPageContentBytes` ends the loop with an error (`none`), whatever
+was collected; otherwise the part and, if it is not empty, one line feed are appended. (The
+check is made for an empty part too, and the separator is appended after the check: `allData`
+may reach `maxPageContentBytes + 1` bytes.) The joined bytes are assembled on the way back. -/
+def joinLoop : Nat → List (List Nat) → Option (List Nat)
+  | _, [] => some []
+  | n, p :: ps =>
+    if n + p.length > maxPageContentBytes then none
+    else
+      match joinLoop (n + (joinPiece p).length) ps with
+      | none => none
+      | some r => some (joinPiece p ++ r)
+
+/-- the joined content of a page, or `none` when the limit refuses it -/
+def joinBounded (parts : List (List Nat)) : Option (List Nat) := joinLoop 0 parts
+
+/-- the same loop on the lengths of the parts alone: does the limit let them pass? -/
+def fitsLoop : Nat → List Nat → Bool
+  | _, [] => true
+  | n, l :: ls =>
+    if n + l > maxPageContentBytes then false
+    else fitsLoop (n + (if l = 0 then 0 else l + 1)) ls
 
 end Tabula.PdfDoc
